@@ -192,7 +192,7 @@ def run_unit(unit_path, repo, verif_root, build_root, do_twin=True, rlimit=None)
         res["undecided"].append("extraction: %s" % e)
         return res
     res["extraction"] = report
-    res["extracted_fns"] = [ex["path"][-1].split()[-1] for ex in unit.get("extract", [])
+    res["extracted_fns"] = [ex["path"][-1].lstrip("^").split()[-1] for ex in unit.get("extract", [])
                             if ex.get("kind", "fn") == "fn"] + list(unit.get("_default_contract_fns", []))
     res["default_contract_fns"] = list(unit.get("_default_contract_fns", []))
     res["has_impl_all"] = bool(unit.get("impl_all"))
@@ -245,7 +245,7 @@ def run_unit(unit_path, repo, verif_root, build_root, do_twin=True, rlimit=None)
     ranges = _fn_ranges(gen_text)
     ex_fn = {}
     for ex in unit.get("extract", []):
-        last = ex["path"][-1]
+        last = ex["path"][-1].lstrip("^")
         if ex.get("kind") == "block":
             m = re.search(r"fn\s+(\w+)", ex.get("wrap_head", ""))
             if m:
